@@ -267,6 +267,8 @@ def render_c07(case, c, seed):
         others.append(f"#[::entrait::entrait(pub Other{k})]\nfn other{k}<D>(deps: &D, x: i32) -> String {body}\n")
     attr = "TrImpl, delegate_by = DelegateTr" if static else "TrImpl, delegate_by = ref"
     methods = [f"    {fnkw} m{i}(&self{sig_params}) -> String;" for i in range(1, p["nmeth"] + 1)]
+    if p.get("typed"):
+        methods = [m.replace("(&self", "(self: &Self") for m in methods]
     if p.get("mixed"):
         methods.append("    fn level(&self) -> u8;")
     trait_text = f"#[::entrait::entrait({attr})]\n{at}pub trait Tr {{\n" + "\n".join(methods) + "\n}\n"
